@@ -254,6 +254,11 @@ func runCheck(o *Options, writeEvidence bool) int {
 		}
 	}
 	os.MkdirAll(filepath.Join(o.outDir, o.prop), 0o755)
+	if old, _ := filepath.Glob(filepath.Join(o.outDir, o.prop, "*.json")); o.prop != "" {
+		for _, f := range old {
+			os.Remove(f)
+		}
+	}
 	seenKnown := map[string]bool{}
 	for _, f := range knowns {
 		if !seenKnown[f.Known] {
@@ -327,6 +332,21 @@ func (w *Worker) confirm(h *Harness, f *Failure) bool {
 	in.runPath()
 	for _, g := range in.failures {
 		if g.Kind == f.Kind && g.Label == f.Label && g.Site == f.Site && g.Class == f.Class {
+			return true
+		}
+	}
+	if f.Kind != "assert" {
+		return false
+	}
+	// oracles that are only meaningful on symbolic terms (wire dependency): re-execute the
+	// recorded path symbolically and evaluate the assertion under the recorded model
+	hh2 := newHarness(h.Name, h.Fn)
+	in2 := w.newInterp(hh2, f.Path, nil)
+	in2.confirmModel = model
+	in2.runPath()
+	for _, g := range in2.failures {
+		if g.Kind == f.Kind && g.Label == f.Label && g.Site == f.Site && g.Class == f.Class {
+			f.Detail += " (confirmed by symbolic re-execution of the recorded path under the recorded model)"
 			return true
 		}
 	}
